@@ -14,7 +14,7 @@ const OPTIONS_MARK: &str = "[options]";
 static RE_DEFAULT_VALUE: LazyLock<Regex> =
     LazyLock::new(|| Regex::new(r"\[default: (.*)\]").unwrap());
 
-#[derive(Clone, Debug, Hash, Eq, PartialEq)]
+#[derive(Clone, Debug, Hash, Eq, PartialEq, Ord, PartialOrd)]
 pub enum OptionArg {
     Simple {
         short: Option<String>,
@@ -201,22 +201,20 @@ impl Options {
     }
 
     fn find(&self, arg_usage: &str) -> Option<OptionArg> {
+        // `hash_set` is iterated in a different order in every process: when two descriptions
+        // share a name, always answer with the same one
         if arg_usage.starts_with("--") {
             self.hash_set
-                .clone()
-                .into_iter()
-                .find_map(|option_arg| match option_arg.get_long() {
-                    Some(long) if long == arg_usage => Some(option_arg),
-                    _ => None,
-                })
+                .iter()
+                .filter(|option_arg| option_arg.get_long().as_deref() == Some(arg_usage))
+                .min()
+                .cloned()
         } else if arg_usage.starts_with('-') {
             self.hash_set
-                .clone()
-                .into_iter()
-                .find_map(|option_arg| match option_arg.get_short() {
-                    Some(short) if short == arg_usage => Some(option_arg),
-                    _ => None,
-                })
+                .iter()
+                .filter(|option_arg| option_arg.get_short().as_deref() == Some(arg_usage))
+                .min()
+                .cloned()
         } else {
             None
         }
